@@ -20,8 +20,8 @@ use crate::{
         format::format_part,
         offset::{add_offset_to_dn, remove_offset_from_dn},
         parse::{
-            parse_format_string, parse_offset, parse_part, ParseUnit, ParsedDate, ParsedTime,
-            Period,
+            parse_format_string, parse_offset, parse_part, remove_escaped_part, ParseUnit,
+            ParsedDate, ParsedTime, Period,
         },
         time::{
             convert::{
@@ -352,15 +352,9 @@ impl DateTime {
         let mut string = string.to_string();
 
         for part in parts {
-            // Escaped apostrophes
-            if part.starts_with('\u{0000}') {
-                string.replace_range(0..part.len(), "");
-                continue;
-            }
-
-            // Escaped parts
-            if part.starts_with('\'') {
-                string.replace_range(0..part.len() - if part.ends_with('\'') { 2 } else { 1 }, "");
+            // Escaped apostrophes and escaped parts
+            if part.starts_with('\u{0000}') || part.starts_with('\'') {
+                remove_escaped_part(&part, &mut string)?;
                 continue;
             }
 
@@ -1085,8 +1079,8 @@ impl TimeUtilities for DateTime {
     }
 
     fn sub_hours(&self, hours: u32) -> Self {
-        let total_nanos = self.days as i128 * NANOS_PER_DAY as i128
-            + sub_hours(self.nanoseconds as i64, hours);
+        let total_nanos =
+            self.days as i128 * NANOS_PER_DAY as i128 + sub_hours(self.nanoseconds as i64, hours);
 
         let (days, nanoseconds) = nanos_to_days_nanos(total_nanos).unwrap_or_else(|_| {
             panic!(
@@ -1139,8 +1133,8 @@ impl TimeUtilities for DateTime {
     }
 
     fn sub_millis(&self, millis: u32) -> Self {
-        let total_nanos = self.days as i128 * NANOS_PER_DAY as i128
-            + sub_millis(self.nanoseconds as i64, millis);
+        let total_nanos =
+            self.days as i128 * NANOS_PER_DAY as i128 + sub_millis(self.nanoseconds as i64, millis);
 
         let (days, nanoseconds) = nanos_to_days_nanos(total_nanos).unwrap_or_else(|_| {
             panic!(
@@ -1157,8 +1151,8 @@ impl TimeUtilities for DateTime {
     }
 
     fn sub_micros(&self, micros: u32) -> Self {
-        let total_nanos = self.days as i128 * NANOS_PER_DAY as i128
-            + sub_micros(self.nanoseconds as i64, micros);
+        let total_nanos =
+            self.days as i128 * NANOS_PER_DAY as i128 + sub_micros(self.nanoseconds as i64, micros);
 
         let (days, nanoseconds) = nanos_to_days_nanos(total_nanos).unwrap_or_else(|_| {
             panic!(
